@@ -3,6 +3,7 @@ package simrt
 import (
 	"fmt"
 	"sort"
+	"sync"
 )
 
 // Map-order policies: the "fault kinds" of a library whose only internal nondeterminism is
@@ -147,13 +148,21 @@ func currentOrder() *OrderSource {
 
 var runOrder *OrderSource
 
+// RealGo: the library uses blocking constructs the simulator does not own (channels, select,
+// Cond, timers). Its go statements then start real goroutines (running them inline could
+// block forever), and the order source is shared under a lock. Which goroutine reaches a seam
+// first is then not the simulator's choice: replay is no longer exact for such a tree, which
+// the evidence says.
+var RealGo bool
+var orderMu sync.Mutex
+
 // SetRunOrder installs the order source for code running outside the scheduler.
 func SetRunOrder(o *OrderSource) { runOrder = o }
 
 // MapOrder is what every `range` over a map is rewritten to call: it returns the keys of m
 // in the order the simulator chose. With the simulator inactive it returns them in the
 // order the Go runtime produced (pass-through).
-func MapOrder[K comparable, V any](site int, m map[K]V) []K {
+func MapOrder[M ~map[K]V, K comparable, V any](site int, m M) []K {
 	keys := make([]K, 0, len(m))
 	for k := range m {
 		keys = append(keys, k)
@@ -164,6 +173,10 @@ func MapOrder[K comparable, V any](site int, m map[K]V) []K {
 	n := len(keys)
 	if n < 2 {
 		return keys
+	}
+	if RealGo {
+		orderMu.Lock()
+		defer orderMu.Unlock()
 	}
 	o := currentOrder()
 	if o == nil {
